@@ -261,6 +261,9 @@ func (c *Client) validateVirtualChannelFundingProposal(
 	}
 
 	// Validate signatures.
+	if len(prop.Initial.Sigs) != len(prop.Initial.Params.Parts) {
+		return errors.New("wrong number of signatures")
+	}
 	for i, sig := range prop.Initial.Sigs {
 		for _, part := range prop.Initial.Params.Parts[i] {
 			ok, err := channel.Verify(
@@ -279,6 +282,11 @@ func (c *Client) validateVirtualChannelFundingProposal(
 	// Validate index map.
 	if len(prop.Initial.Params.Parts) != len(prop.IndexMap) {
 		return errors.New("index map: invalid length")
+	}
+	for _, idx := range prop.IndexMap {
+		if int(idx) >= ch.state().NumParts() {
+			return errors.New("index map: invalid index")
+		}
 	}
 
 	// Assert not contained before
@@ -310,6 +318,11 @@ func (c *Client) validateVirtualChannelFundingProposal(
 	virtual := transformBalances(prop.Initial.State.Balances, ch.state().NumParts(), subAlloc.IndexMap)
 	if err := ch.state().AssertGreaterOrEqual(virtual); err != nil {
 		return errors.WithMessage(err, "insufficient funds")
+	}
+
+	// Assert correct balances.
+	if !ch.state().Balances.Sub(virtual).Equal(prop.State.Balances) {
+		return errors.New("invalid balances")
 	}
 
 	return nil
